@@ -1004,11 +1004,20 @@ class OffsetMap:
             - delta is the difference between the requested offset and stored offset
               Note: delta can be negative, e.g., when computing slot(a[n-1]) which is `(keccak(slot(a)) - 1) + n`
         """
-        (value, offset) = self._map.get(key >> self._offset_bits, (None, None))
-        if value is None:
-            return (None, None)
-        delta = (key & self._mask) - offset
-        return (value, delta)
+        raw_key = key >> self._offset_bits
+        (value, offset) = self._map.get(raw_key, (None, None))
+        if value is not None:
+            return (value, (key & self._mask) - offset)
+
+        # the key may be a small offset away from an entry stored in an adjacent bucket
+        for neighbor in (raw_key - 1, raw_key + 1):
+            (value, offset) = self._map.get(neighbor, (None, None))
+            if value is not None:
+                delta = key - ((neighbor << self._offset_bits) | offset)
+                if abs(delta) <= self._mask:
+                    return (value, delta)
+
+        return (None, None)
 
     def __setitem__(self, key: int, value: Any):
         """Store a value with its offset.
